@@ -68,9 +68,14 @@ var sigSite = map[string]string{
 	"panic:internal/deepcopy.OrderedMap:nil-deref":                    "SMatrixNilMap",
 }
 
+var deepCopySig = regexp.MustCompile(`^panic:taskfile/ast\.\(\*[A-Za-z]+\)\.DeepCopy:nil-deref$`)
+
 func siteOf(sig string) string {
 	if s, ok := sigSite[sig]; ok {
 		return s
+	}
+	if deepCopySig.MatchString(sig) {
+		return "SDeepCopyNil"
 	}
 	return "SOther"
 }
@@ -282,16 +287,84 @@ func generate(o *common.Opts, obs *common.Obs) []Doc {
 	if thorough {
 		nShards = 1 + (len(muts)-1)/200
 	}
-	half := int(o.Seed/1000) % 2 // the quick tier takes every other mutation; which half alternates with VERIF_SEED
+	half := int(o.Seed/1000) % 3 // the quick tier takes every third mutation; which third rotates with VERIF_SEED
 	for i, m := range muts {
 		if i%nShards != shard%nShards {
 			continue
 		}
-		if shard >= nShards || (!thorough && (i/nShards)%2 != half) {
+		if shard >= nShards || (!thorough && (i/nShards)%3 != half) {
 			continue
 		}
 		root := max.ReplaceAt(m.p, func(old *Y) *Y { return mutate(m.k, old) })
 		docs = append(docs, renderTreeDoc(fmt.Sprintf("mutation:%d", m.k), maxTrees(root), []string{"nonexist"}))
+	}
+
+	// the same for a Taskfile that is INCLUDED (Tasks.Merge deep-copies every field of its tasks):
+	// behind the root directly, flattened, and at depth 2.  Null entries in list positions are the
+	// nil-element consumers' inputs: always taken; the other mutations rotate through the runs.
+	maxInc := maximalIncluded()
+	var incPaths, incSeqPaths [][]int
+	maxInc.Paths(nil, &incPaths)
+	seqElemPaths(maxInc, nil, &incSeqPaths)
+	isSeqElem := map[string]bool{}
+	for _, p := range incSeqPaths {
+		isSeqElem[fmt.Sprint(p)] = true
+	}
+	type imut struct {
+		p     []int
+		k     int
+		shape string
+		core  bool
+	}
+	var imuts []imut
+	for pi, p := range incPaths {
+		for k := 0; k < 4; k++ {
+			if k == 0 && isSeqElem[fmt.Sprint(p)] {
+				for _, sh := range includeShapes {
+					imuts = append(imuts, imut{p, k, sh, true})
+				}
+				continue
+			}
+			imuts = append(imuts, imut{p, k, includeShapes[(pi+k)%len(includeShapes)], false})
+		}
+	}
+	obs.Counters["include_mutation_space"] = int64(len(imuts))
+	iShards := 8
+	if thorough {
+		iShards = 1 + (len(imuts)-1)/150
+	}
+	rot := int(o.Seed/1000) % 10
+	ci := 0
+	for i, m := range imuts {
+		if i%iShards != shard%iShards || shard >= iShards {
+			continue
+		}
+		if !thorough && !m.core {
+			ci++
+			if ci%10 != rot {
+				continue
+			}
+		}
+		inc := maxInc.ReplaceAt(m.p, func(old *Y) *Y { return mutate(m.k, old) })
+		docs = append(docs, renderTreeDoc(fmt.Sprintf("inc-mutation:%d:%s", m.k, m.shape), includeTrees(m.shape, inc), []string{"nonexist"}))
+	}
+	if shard == 0 {
+		for _, sh := range includeShapes {
+			docs = append(docs, renderTreeDoc("inc-maximal:"+sh, includeTrees(sh, maxInc), []string{"nonexist", "a:full", "full"}))
+		}
+	}
+
+	// concurrency family: valid Taskfiles, many wildcard tasks looked up for the first time at once
+	nConc := 1
+	if thorough {
+		nConc = 3
+	}
+	for c := 0; c < nConc; c++ {
+		n := []int{50, 100, 160}[(c+shard)%3]
+		root, calls := concurrencyDoc(fmt.Sprintf("%dc%d", o.Seed, c), n)
+		d := renderTreeDoc(fmt.Sprintf("concurrency:%d", n), map[string]*Y{"Taskfile.yml": root}, nil)
+		d.Conc = calls
+		docs = append(docs, d)
 	}
 
 	// random part
@@ -307,9 +380,16 @@ func generate(o *common.Opts, obs *common.Obs) []Doc {
 		case x < 15: // names with regex metacharacters
 			root := g.taskfile(false, 0.6)
 			docs = append(docs, renderTreeDoc("random:odd-names", map[string]*Y{"Taskfile.yml": root}, []string{"nonexist"}))
-		case x < 17: // includes
+		case x < 16: // includes of all kinds (odd locations, options), the included files random too
 			root := g.taskfile(true, 0.05)
-			docs = append(docs, renderTreeDoc("random:includes", map[string]*Y{"Taskfile.yml": root, "inc1.yml": incTree(1), "inc2.yml": incTree(2)}, []string{"nonexist"}))
+			docs = append(docs, renderTreeDoc("random:includes", map[string]*Y{"Taskfile.yml": root, "inc1.yml": g.includedFile(), "inc2.yml": incTree(2)}, []string{"nonexist"}))
+		case x < 18: // a random file with deviations and nulls in list positions, included (depth 1-2, with and without flatten)
+			sh := includeShapes[r.Intn(len(includeShapes))]
+			saveNul := g.nul
+			g.nul = 0.2
+			inc := g.includedFile()
+			g.nul = saveNul
+			docs = append(docs, renderTreeDoc("random:included:"+sh, includeTrees(sh, inc), []string{"nonexist"}))
 		default: // damaged bytes
 			root := g.taskfile(false, 0.1)
 			bd := randomByteDoc(r, root.Doc())
@@ -388,7 +468,7 @@ func Main(args []string) {
 		docs = generate(o, obs)
 	}
 	bin := os.Getenv("VERIF_TASK_BIN")
-	cliEvery := 25
+	cliEvery := 40
 	if v, ok := o.Extra["cli_every"]; ok {
 		fmt.Sscanf(v, "%d", &cliEvery)
 	}
@@ -452,7 +532,11 @@ func Main(args []string) {
 			continue
 		case "panic":
 			obs.Count("panic-sig:" + res.Sig)
-			obs.ImplFails = append(obs.ImplFails, common.ImplFail{Case: i, Kind: "panic", Msg: "sig=" + res.Sig + "\nphase=" + res.Phase + " " + res.Msg + "\n" + tail(res.Stack, 3000)})
+			kind := "panic"
+			if strings.HasPrefix(res.Sig, "fatal:") {
+				kind = "fatal" // the Go runtime ended the process (e.g. concurrent map writes): not recoverable
+			}
+			obs.ImplFails = append(obs.ImplFails, common.ImplFail{Case: i, Kind: kind, Msg: "sig=" + res.Sig + "\nphase=" + res.Phase + " " + res.Msg + "\n" + tail(res.Stack, 3000)})
 		case "timeout":
 			obs.ImplFails = append(obs.ImplFails, common.ImplFail{Case: i, Kind: "timeout", Msg: "sig=timeout:" + res.Phase + "\n" + tail(res.Stack, 3500)})
 		case "err":
@@ -461,7 +545,7 @@ func Main(args []string) {
 			}
 		}
 		// the CLI on a sample (always on the directed byte documents)
-		if bin != "" && (d.Kind == "tree" || d.Kind == "bytes") && (i%cliEvery == 0 || (d.Kind == "bytes" && !strings.HasPrefix(d.Label, "rand:")) || o.Replay != "") {
+		if bin != "" && (d.Kind == "tree" || d.Kind == "bytes") && (len(d.Conc) > 0 || i%cliEvery == 0 || (d.Kind == "bytes" && !strings.HasPrefix(d.Label, "rand:")) || o.Replay != "") {
 			name := "nonexist"
 			if len(d.Requested) > 0 {
 				name = d.Requested[0]
@@ -472,6 +556,12 @@ func Main(args []string) {
 			variants := [][]string{{"--list-all"}, {"--dry", name, "CLI_X=1"}, {"--dry", "nonexist"}}
 			if res.Class == "err" && res.Phase == "setup" {
 				variants = variants[1:2] // Setup fails the same way whatever is asked
+			}
+			if d.Kind == "bytes" && len(variants) == 3 {
+				variants = variants[:2]
+			}
+			if len(d.Conc) > 0 {
+				variants = [][]string{{"--dry", "all"}, append([]string{"--parallel", "--dry"}, d.Conc...), {"all"}, {"--list-all"}}
 			}
 			for _, a := range variants {
 				if len(a) > 1 && a[1] == "" {
@@ -485,7 +575,11 @@ func Main(args []string) {
 				case co.Killed:
 					obs.ImplFails = append(obs.ImplFails, common.ImplFail{Case: i, Kind: "cli-timeout", Msg: "sig=timeout:cli\n" + strings.Join(a, " ")})
 				case co.Panic:
-					obs.ImplFails = append(obs.ImplFails, common.ImplFail{Case: i, Kind: "cli-panic", Msg: "sig=" + co.Sig + "\nargs=" + strings.Join(a, " ") + "\n" + co.Out})
+					ck := "cli-panic"
+					if strings.HasPrefix(co.Sig, "fatal:") {
+						ck = "cli-fatal"
+					}
+					obs.ImplFails = append(obs.ImplFails, common.ImplFail{Case: i, Kind: ck, Msg: "sig=" + co.Sig + "\nargs=" + strings.Join(a, " ") + "\n" + co.Out})
 				case !documentedCodes[co.Exit]:
 					obs.ImplFails = append(obs.ImplFails, common.ImplFail{Case: i, Kind: "cli-exit-code", Msg: fmt.Sprintf("sig=exit-code:%d\nargs=%s\n%s", co.Exit, strings.Join(a, " "), co.Out)})
 				}
